@@ -119,7 +119,10 @@ def compareCSnap (tl : Tally) (m i : CSnap) (what : String) : Tally := Id.run do
   let mut tl := tl
   if m.items != i.items then
     tl := tl.divergeAt s!"{what}.store" (showCSnap { m with buckets := [], charges := [] }) (showCSnap { i with buckets := [], charges := [] })
-  if m.buckets != i.buckets then
+  -- a bucket that holds no key is not observable through the API (whether an emptied bucket is kept as an
+  -- empty map until its second is swept, or dropped at once, is the implementation's business)
+  let nonEmpty := fun (bs : List (Nat × List (Nat × Nat))) => bs.filter fun b => !b.2.isEmpty
+  if nonEmpty m.buckets != nonEmpty i.buckets then
     tl := tl.divergeAt s!"{what}.expiry" (showCSnap { m with items := [], charges := [] }) (showCSnap { i with items := [], charges := [] })
   if m.charges != i.charges || m.used != i.used || m.max != i.max then
     tl := tl.divergeAt s!"{what}.policy" s!"charges={showPairs m.charges} used={m.used} max={m.max}" s!"charges={showPairs i.charges} used={i.used} max={i.max}"
@@ -374,7 +377,10 @@ def finishStep (st : CacheSt) (tl : Tally) (c' : Cache) (what : String) (cbsMode
   let cbsModel := st.pendingCbs ++ cbsModel
   let cbsModel := if g.defaultReject then cbsModel.map (fun cb => match cb with | .reject _ _ v _ => CB.exit v | x => x) else cbsModel
   let st := { st with pendingCbs := [] }
-  let tl := if cbsModel == cbsImpl then tl
+  -- which callbacks were made, with which arguments, how often — not the order among the callbacks of one step
+  -- (no property orders the `on_reject` of a newcomer against the `on_evict`s of the victims it displaced)
+  let sameBag := cbsModel.length == cbsImpl.length && cbsModel.all fun cb => cbsModel.count cb == cbsImpl.count cb
+  let tl := if sameBag then tl
     else tl.divergeAt s!"{what}.callbacks" (showCbs cbsModel) (showCbs cbsImpl)
   let tl := compareCSnap tl (modelSnap c') snap what
   let g := noteCallbacks g cbsImpl
@@ -412,7 +418,9 @@ that the line parses), the answer proper and the callbacks are replaced -/
 def muteAns (ans : String) (lead : String) : String :=
   let toks := (splitWs ans).filter fun t =>
     !(t.startsWith "ret=" || t.startsWith "ok=" || t.startsWith "desc=" || t.startsWith "cbs=")
-  lead ++ " cbs=- " ++ " ".intercalate toks
+  -- the composite's callbacks travel along under another name: only the tie-break oracle reads them
+  let all := ((splitWs ans).find? (·.startsWith "cbs=")).map fun t => "allcbs=" ++ (t.drop 4).toString
+  lead ++ " cbs=- " ++ " ".intercalate toks ++ (match all with | some a => " " ++ a | none => "")
 
 /-- `key@inc@obs/…`: what the eviction loops of one batch observed, in order -/
 def parseGroups (s : String) : List (Nat × Int × String) :=
@@ -1045,8 +1053,18 @@ partial def stepCache (st : CacheSt) (tl : Tally) (act : String) (ans : String) 
             | none => tl.badAt act
           let key := match it with | .new k .. => k | _ => 0
           let estTab : List (Nat × Int) := (obs.flatten.map fun t => (t.1, t.2.2))
-          let est : Nat → Int := fun x => if x == key then inc else ((estTab.find? (·.1 == x)).map (·.2)).getD 0
+          let est0 : Nat → Int := fun x => if x == key then inc else ((estTab.find? (·.1 == x)).map (·.2)).getD 0
           let obsPairs := obs.map (·.map fun t => (t.1, t.2.1))
+          -- the tie-break among equally unpopular candidates follows the implementation (`tieOracle`); the keys
+          -- this call released: charged before, not charged afterwards
+          let releasedKeys := match g.prev with
+            | some p => (p.charges.filter fun ch => !(snap.charges.any (·.1 == ch.1))).map (·.1)
+            | none => []
+          -- (in a composite step the items applied before this one have used up the first callbacks)
+          let usedUp := (st.pendingCbs.filter fun cb => match cb with | .evict .. => true | _ => false).length
+          let evictedKeys := (((if cbsImpl.isEmpty then ((lookup r "allcbs").bind parseCbs).getD [] else cbsImpl)).filterMap
+              fun cb => match cb with | .evict k _ _ _ => some k | _ => none).drop usedUp
+          let est := withTies est0 (tieOracle obsPairs (releasedKeys ++ evictedKeys) evictedKeys)
           -- C11 / C13: a fresh or cleared cache estimates zero for every key until lookups are applied
           let tl := match it with
             | .new k .. =>
